@@ -10,13 +10,14 @@
    tied to the code by C20's operation-level correspondence) behind the shape all five call sites of symbolic.py share
    (coverage check -> replay the most general of the rows retrieval returns; otherwise evaluate, yield, store every row), for every operator whose
    rows bind every cache key, over ANY history of lookups.
-   MISSING: the same for operators whose rows leave a cache key open (the wildcard enters the index).  The index itself is
-   now proved exact there too (Properties/C20.v, C20_retrieve: retrieval = the reference answer for EVERY history - at the pinned
-   commit that statement was refuted and caused row losses, known findings C20-wildcard-preference / C05-wildcard-retrieval, both
-   repaired in /repo), but a cached operator may then hold the same row under several lookups and keeps, of the retrieved rows,
-   the most general ones - that step, that each call site of symbolic.py has the modelled shape, and which `yield_when_false` a
-   cached row was recorded under are covered by the correspondence check (cache on vs cache off vs specification), not by a theorem. *)
-From EQL Require Import Base Memo_Facts IndexedCache IndexedCache_Facts IndexedCache_Sound IndexedMemo_Facts.
+   PROVED PART (C05_indexed_denotation): for EVERY operator - rows that leave cache keys open included, the region in which the
+   index was broken at the pinned commit (known findings C20-wildcard-preference / C05-wildcard-retrieval, both repaired in /repo;
+   the index itself is now proved exact, Properties/C20.v) - the cached call site answers, over ANY history of lookups, rows that
+   stand for exactly the assignments the uncached operator's rows stand for: transparency as a SET of assignments.
+   MISSING: that no assignment comes out twice when rows leave keys open (what the selection of the most general retrieved rows is
+   for), that each call site of symbolic.py has the modelled shape, and which `yield_when_false` a cached row was recorded under:
+   covered by the correspondence check (cache on vs cache off vs specification), not by a theorem. *)
+From EQL Require Import Base Memo_Facts IndexedCache IndexedCache_Facts IndexedCache_Sound IndexedMemo_Facts IndexedMemo_Den.
 
 Theorem C05_memo_transparent_partial : forall (K R : Type) (keqb : K -> K -> bool),
   (forall a b, keqb a b = true <-> a = b) -> forall (f : K -> R) ks st,
@@ -55,6 +56,75 @@ Example C05_indexed_nonvacuous :
 Proof.
   cbv zeta. split; [repeat constructor|]. split; [|split; vm_compute; reflexivity].
   vm_compute. repeat constructor; cbn; intuition discriminate.
+Qed.
+
+(* EVERY operator, rows that leave cache keys open included (the wildcard enters the index: the region of the former known
+   findings).  The operator is described by what it DENOTES: [rel], a finite relation of full rows (every cache key bound) with
+   their truth flags; [f L], the rows it yields uncached under the lookup L - each extends L, may leave keys open (it then stands for
+   every value of them: [sub_on ks r b], the full row b contains r), carries the flag of every row of [rel] it stands for, and
+   together they stand for every row of [rel] that agrees with L ([asked]: the lookups of the history).  [den rows b o]: the full
+   row b with flag o is one of the rows [rows] stand for.  For EVERY history of lookups, what the cached call site answers -
+   coverage check, complete retrieval, the most general of the retrieved rows; or evaluation and storing - stands for exactly the
+   rows of [rel] that agree with the lookup: the cache is transparent as a SET of assignments.  (That no assignment comes out
+   twice is what the selection of the most general rows is for; that half is covered by the correspondence, and by
+   C05_indexed_full_rows where no row leaves a key open.) *)
+Theorem C05_indexed_denotation : forall ks, ks <> [] -> forall rel,
+  (forall b o, In (b, o) rel -> full ks b = true) ->
+  forall (f : assignment -> list entry) (asked : assignment -> Prop),
+  (forall L r o, asked L -> In (r, o) (f L) -> over ks r = true /\ nonempty r = true /\ sub_on ks L r = true) ->
+  (forall L r o b o', asked L -> In (r, o) (f L) -> In (b, o') rel -> sub_on ks r b = true -> o' = o) ->
+  (forall L b o, asked L -> In (b, o) rel -> compatible ks b L = true -> exists r, In (r, o) (f L) /\ sub_on ks r b = true) ->
+  forall Ls, Forall (fun L => binds_some ks L = true /\ asked L) Ls ->
+  Forall2 (fun rows L => forall b o, den ks rel rows b o <-> (In (b, o) rel /\ compatible ks b L = true))
+          (cached_run_f f (init ks) Ls) Ls.
+Proof. exact cached_denotes. Qed.
+Print Assumptions C05_indexed_denotation.
+
+(* non-vacuity: an else-if over x (key 1) and z (key 2): "x = 0, or else z = 1".  A row for x = 0 leaves z open unless the lookup
+   binds it.  The history stores {x:0, z:1} and {x:1, z:1} (lookup z = 1), then {x:0} with z open (lookup x = 0) - one level of the
+   index now holds the wildcard AND a concrete key -, and the covered lookup {x:0, z:1} retrieves two entries and answers one row. *)
+Definition elseif_op (L : assignment) : list entry :=
+  flat_map (fun x => if Nat.eqb x 0
+                     then [(match aget L 2 with Some z => [(1, x); (2, z)] | None => [(1, x)] end, 0)]
+                     else match aget L 2 with
+                          | Some z => if Nat.eqb z 1 then [([(1, x); (2, z)], 0)] else []
+                          | None => [([(1, x); (2, 1)], 0)]
+                          end)
+           (match aget L 1 with Some x => [x] | None => [0; 1] end).
+
+Example C05_denotation_nonvacuous :
+  let ks := [1; 2] in
+  let rel := [([(1, 0); (2, 0)], 0); ([(1, 0); (2, 1)], 0); ([(1, 1); (2, 1)], 0)] in
+  let Ls := [[(2, 1)]; [(1, 0)]; [(1, 0); (2, 1)]; [(1, 1)]] in
+  let asked := fun L => In L Ls in
+  (forall b o, In (b, o) rel -> full ks b = true) /\
+  (forall L r o, asked L -> In (r, o) (elseif_op L) -> over ks r = true /\ nonempty r = true /\ sub_on ks L r = true) /\
+  (forall L r o b o', asked L -> In (r, o) (elseif_op L) -> In (b, o') rel -> sub_on ks r b = true -> o' = o) /\
+  (forall L b o, asked L -> In (b, o) rel -> compatible ks b L = true -> exists r, In (r, o) (elseif_op L) /\ sub_on ks r b = true) /\
+  Forall (fun L => binds_some ks L = true /\ asked L) Ls /\
+  map (map fst) (cached_run_f elseif_op (init ks) Ls)
+    = [[[(1, 0); (2, 1)]; [(1, 1); (2, 1)]]; [[(1, 0)]]; [[(1, 0); (2, 1)]]; [[(1, 1); (2, 1)]]] /\
+  (* the third lookup was covered, and the index returned TWO entries for it *)
+  (let s2 := fst (cached_step_f elseif_op (fst (cached_step_f elseif_op (init ks) [(2, 1)])) [(1, 0)]) in
+   fst (ic_check (impl s2) [(1, 0); (2, 1)]) = true /\ length (ic_retrieve (impl s2) [(1, 0); (2, 1)]) = 2).
+Proof.
+  cbv zeta. split; [|split; [|split; [|split; [|split; [|split]]]]].
+  - intros b o H. repeat (destruct H as [H|H]; [injection H as <- <-; reflexivity|]). destruct H.
+  - intros L r o A H. repeat (destruct A as [<-|A]; [cbn in H; repeat (destruct H as [H|H]; [injection H as <- <-; repeat split; reflexivity|]); destruct H|]). destruct A.
+  - intros L r o b o' A H Hb _.
+    assert (o' = 0) by (repeat (destruct Hb as [Hb|Hb]; [now injection Hb as _ <-|]); destruct Hb).
+    assert (o = 0); [|congruence].
+    repeat (destruct A as [<-|A]; [cbn in H; repeat (destruct H as [H|H]; [now injection H as _ <-|]); destruct H|]). destruct A.
+  - intros L b o A Hb C.
+    repeat (destruct A as [<-|A];
+            [repeat (destruct Hb as [Hb|Hb];
+                     [injection Hb as <- <-; first [discriminate C
+                                                  | eexists; split; [left; reflexivity | reflexivity]
+                                                  | eexists; split; [right; left; reflexivity | reflexivity]]|]); destruct Hb|]).
+    destruct A.
+  - repeat (apply Forall_cons; [split; [reflexivity | cbn; tauto]|]). apply Forall_nil.
+  - vm_compute. reflexivity.
+  - vm_compute. split; reflexivity.
 Qed.
 
 (* non-vacuity: a history with repeated lookups is answered from the memo and agrees with the uncached function *)
